@@ -272,7 +272,9 @@ def strategy():
             # the interesting combination: buffers as large as the configuration allows, stack as small as threads get
             l_ds = draw(st.sampled_from([65535, 1048575, 1048575]))
             l_log = draw(st.sampled_from([65535, 1048575, 1048575]))
-        c = {"comp": comp, "l_ds": l_ds, "l_log": l_log, "delta": delta, "which": which, "stack": stack}
+        # some callers hold more than a thousand open descriptors (busy servers): whatever the library opens gets a number >= 1024
+        manyfds = 0 if stack else draw(st.sampled_from([0, 0, 0, 0, 1100, 1130, 1300, 2500]))
+        c = {"comp": comp, "l_ds": l_ds, "l_log": l_log, "delta": delta, "which": which, "stack": stack, "manyfds": manyfds}
         if comp == "ds":
             c["name"] = draw(st.sampled_from(STEERED * 3 + NOARG + WITHARG))
             c["arg"] = draw(st.one_of(st.none(), gen.text_bytes(0, 20), gen.text_bytes(200, 900, boundaries=(254, 255, 256, 900)),
@@ -355,6 +357,8 @@ def evaluate(env, c):
         return
     ops = [drv.op("x", out + "/log"), drv.op("S", 1, "null"), drv.op("S", 2, "null"), drv.op("K", "devlog", out + "/devlog.sock", 1),
            drv.op("C", ini)] + ops_pre + [drv.op_env(environ)]
+    if c.get("manyfds"):
+        ops.append(drv.op("O", c["manyfds"]))
     if stack:
         ops += [drv.op("t", stack), drv.op("Z", 1, 0), drv.op_exec("e", path, argv, [b"X=1"], ret=-1, err=5, tno=0, callno=0)]
     else:
@@ -366,7 +370,7 @@ def evaluate(env, c):
         raise Failure("wrapped call hangs", {"case": c["comp"] + ":" + name}, key="hang")
     if res.signaled or res.exitcode != 0 or reports:
         raise Failure("memory-safety / UB report or fatal signal in %s '%s' (L_ds=%d, L_log=%d, steered length %d%s)" % (
-            c["comp"], name, c["l_ds"], c["l_log"], target, ", caller is a thread with a %d KiB stack" % (stack // 1024) if stack else ""), {"result": res.describe(), "sanitizer": [r[:2500] for r in reports[:1]]},
+            c["comp"], name, c["l_ds"], c["l_log"], target, (", caller is a thread with a %d KiB stack" % (stack // 1024) if stack else "") + (", caller holds %d open descriptors" % c["manyfds"] if c.get("manyfds") else "")), {"result": res.describe(), "sanitizer": [r[:2500] for r in reports[:1]]},
             key="crash:" + classify_report(reports[0].encode("latin-1", "replace") if reports else b""))
     R, T = res.of("R"), res.of("T")
     if len(R) != 1 or len(T) != 1 or int(T[0].f[0]) != -1 or int(T[0].f[1]) != 5:
@@ -375,8 +379,8 @@ def evaluate(env, c):
 
 def classify(c):
     steered = c["comp"] != "ds" or c["name"] in STEERED
-    key = (c["comp"], c["name"], c["which"], c["l_ds"] if c["which"] == "ds" else c["l_log"], c["delta"], c.get("stack", 0)) if steered else None
-    return key, ["sweep", "sweep:" + c["comp"], "limit:" + c["which"], "sweep:" + c["comp"] + ":" + c["name"]] + (["sweep:small-thread-stack"] if c.get("stack") else [])
+    key = (c["comp"], c["name"], c["which"], c["l_ds"] if c["which"] == "ds" else c["l_log"], c["delta"], c.get("stack", 0), c.get("manyfds", 0)) if steered else None
+    return key, ["sweep", "sweep:" + c["comp"], "limit:" + c["which"], "sweep:" + c["comp"] + ":" + c["name"]] + (["sweep:small-thread-stack"] if c.get("stack") else []) + (["sweep:caller-holds->1024-descriptors"] if c.get("manyfds") else [])
 
 
 def main():
